@@ -270,6 +270,12 @@ func judgeParse(s string, o *fw.Obs) {
 	}
 	got := err == nil
 	o.Count(fmt.Sprintf("parse model=%s impl=%s", ar(want), ar(got)))
+	if want && !got && s != strings.ToLower(s) {
+		// the statement requires the Bech32 form (lower case) of every address to parse and says "accepts
+		// only if" for everything else: refusing an upper-case spelling is not a violation
+		o.Count("parse: valid upper-case spelling refused (allowed by the statement)")
+		return
+	}
 	if want != got {
 		vc := "verdict"
 		if hasNonASCII(s) {
